@@ -162,6 +162,20 @@ def offsets2(H, W, sy, sx, cy, cx):
             out.append(((Fraction(H - 1, 2) - i) * sy - cy, (j - Fraction(W - 1, 2)) * sx - cx))
     return out
 
+def exact_sqrt(q):
+    """the rational square root of a non-negative Fraction, or None"""
+    n, d = q.numerator, q.denominator
+    rn, rd = math.isqrt(n), math.isqrt(d)
+    return Fraction(rn, rd) if rn * rn == n and rd * rd == d else None
+
+def tie_radii(H, W, sy, sx, cy, cx):
+    """the rational distances of pixel centres from the requested centre: radii that produce exact ties"""
+    out = set()
+    for dy, dx in offsets2(H, W, sy, sx, cy, cx):
+        r = exact_sqrt(dy * dy + dx * dx)
+        if r is not None: out.add(r)
+    return sorted(out)
+
 def radius_in_band(a2, r):
     """is sqrt(a2) within MARGIN of r (exact arithmetic; an exact tie a2 == r^2 is reported separately)"""
     if r < 0: r = -r
@@ -235,6 +249,10 @@ def gen_mask_cases(rng, exact, kinds):
         sy, sx, cy, cx, rad = geoms[exact or (ell and not arbitrary)]
         h, w = (min(H, 5), min(W, 5)) if arbitrary else (H, W)
         base = {"exact": exact and not ell, "shape": [h, w], "s": [S(sy), S(sx)], "c": [S(cy), S(cx)], "origin": origin}
+        ties = tie_radii(h, w, sy, sx, cy, cx) if (exact and not ell) else []
+        if ties and rng.random() < 0.5:
+            rad0 = rad
+            rad = lambda: rng.choice(ties) if rng.random() < 0.6 else rad0()      # a radius that passes exactly through pixel centres
         for _ in range(20):
             if kind == "circ":
                 inp = dict(base, op="circ", r=[S(rad())])
